@@ -162,6 +162,8 @@ v("C14", "adapter-get-swallows-error", EL, "\tnatsEntry, err := a.kv.Get(key)\n\
 v("C06", "watch-retry-backoff", W, "\t\tcase <-time.After(watchRetryInterval):", "\t\tcase <-time.After(watchRetryInterval * time.Duration(1+e.healthFailureCount.Load())):", ["C06-R2"], "the pause before the next existence check is computed and can grow")
 v("C03", "result-channel-shared", HB, "\t\t\tresultChan := make(chan updateResult, 1)\n", "", ["C03-R1"], "one result channel is shared by all refresh attempts", also=[("\tfor {\n\t\tselect {\n\t\tcase <-ctx.Done():\n\t\t\te.handleHeartbeatContextDone()", "\ttype updateResult struct {\n\t\trev uint64\n\t\terr error\n\t}\n\tresultChan := make(chan updateResult, 1)\n\tfor {\n\t\tselect {\n\t\tcase <-ctx.Done():\n\t\t\te.handleHeartbeatContextDone()"), ("\t\t\ttype updateResult struct {\n\t\t\t\trev uint64\n\t\t\t\terr error\n\t\t\t}\n", "")])
 v("C06", "no-check-at-watch-establishment", W, "\tif !e.IsLeader() {\n\t\te.checkKeyAndReelect(ctx)\n\t}\n\n\tfor {\n\t\tselect {\n\t\tcase <-ctx.Done():\n\t\t\treturn\n\t\tcase entry, ok := <-watcher.Updates():", "\tfor {\n\t\tselect {\n\t\tcase <-ctx.Done():\n\t\t\treturn\n\t\tcase entry, ok := <-watcher.Updates():", ["C06-R2"], "two periods between existence checks around a watch re-establishment")
+v("C07", "validation-timeout-fixed", FE, "\tif half := e.cfg.HeartbeatInterval / 2; half > validationTimeout {\n\t\tvalidationTimeout = half\n\t}\n", "", ["C07-R7"], "the background validation read times out after a fixed 2 s")
+v("C08", "demotion-result-lost", KV, "\tif ctx := e.ctx; ctx != nil && !e.watcherRunning.Load() {", "\tif e.ctx == nil {\n\t\treturn false\n\t}\n\tif ctx := e.ctx; ctx != nil && !e.watcherRunning.Load() {", ["C08-R2"], "enterFollowerState returns false after it cleared a standing claim")
 # ---- C19
 v("C19", "demotion-does-not-cancel", KV, "\tif e.termCancel != nil {\n\t\te.termCancel()\n\t\te.termCancel = nil\n\t}\n", "", ["C19-R1"], "demotion no longer cancels the term context")
 v("C19", "promotion-context-from-background", KV, "promoteCtx, cancel := context.WithCancel(termCtx)", "_ = termCtx\n\t\t\tpromoteCtx, cancel := context.WithCancel(context.Background())", ["C19-R1"], "the promotion context is detached from the term")
